@@ -7,7 +7,7 @@ namespace EaselModel.Buffer
 theorem R.of_keepA' {P : Nat} {a a' : AState} {s s' : Sess} (r : R P a s)
     (wf : WF s'.b) (pg : PG s'.b) (k : KeepA s.b s'.b) (aok : AnchOK s'.b)
     (hsrc : a'.src = a.src) (hanch : a'.anchor = a.anchor) (hnanch : a'.nanchor = a.nanchor)
-    (hcur : s'.b.base + s'.b.pos = a'.cur) (hA : ∀ A, a.anchor = some A → A ≤ a'.cur)
+    (hcur : s'.b.base + s'.b.pos = a'.cur)
     (hlp : s'.lastp = none) (hlp' : a'.lastp = none) : R P a' s' := by
   refine ⟨wf, pg, aok, r.nfa.keepA k, by rw [k.src, r.src, hsrc], hcur, by rw [k.ps]; exact r.ps, ?_, ?_, ?_, ?_, by rw [hlp, hlp']; rfl, ?_⟩
   · rw [k.hasfp, k.mode]; exact r.modefp
@@ -27,7 +27,7 @@ theorem R.of_keepA' {P : Nat} {a a' : AState} {s s' : Sess} (r : R P a s)
   · intro A hA'
     rw [hanch] at hA'
     rw [hnanch]
-    exact ⟨hA A hA', (r.aanch A hA').2⟩
+    exact r.aanch A hA'
   · intro p hp; rw [hlp'] at hp; cases hp
 
 /-- the concrete anchor is at or before any window position whose input offset is at or after the abstract anchor -/
@@ -56,7 +56,6 @@ theorem R.loaded_ge {P : Nat} {a : AState} {s : Sess} (r : R P a s) :
 
 theorem set_tail {P : Nat} {a : AState} {s : Sess} (r : R P a s) (k : Nat) (b1 : Buf) (c : Nat)
     (w1 : WF b1) (k1 : Keep s.b b1) (hcur1 : b1.base + b1.pos = c)
-    (hcA : ∀ A, a.anchor = some A → A ≤ c)
     (e : set s.b s.lastp k = (({ st := if okOrEof (refill b1 0).1 then .ok else (refill b1 0).1 } : Out), (refill b1 0).2))
     (es : specStep a (.set k) = (⟨.ok, [], c⟩, { a with cur := c, lastp := none })) :
     obsOf (.set k) (s.step (.set k)).1 (s.step (.set k)).2 = (specStep a (.set k)).1 ∧
@@ -74,7 +73,7 @@ theorem set_tail {P : Nat} {a : AState} {s : Sess} (r : R P a s) (k : Nat) (b1 :
     rw [ho, hb, hoff]
   · refine r.of_keepA' (s' := (s.step (.set k)).2) (a' := { a with cur := c, lastp := none })
       (by rw [hb]; exact hr.wf) ?_ (by rw [hb]; exact (k1.trans hk).toKeepA) (by rw [hb]; exact r.aok.keep (k1.trans hk))
-      rfl rfl rfl (by rw [hb]; exact hoff) hcA ?_ rfl
+      rfl rfl rfl (by rw [hb]; exact hoff) ?_ rfl
     · rw [hb]
       rcases hr.guarantee (Nat.zero_le _) with g | g
       · left; omega
@@ -88,18 +87,16 @@ theorem sim_set (P : Nat) (k : Nat) : SimStep P (.set k) := by
   cases hl : s.lastp with
   | none =>
     have hal : a.lastp = none := by rw [← r.lastp, hl]; rfl
-    refine set_tail r k s.b a.cur r.wf (Keep.refl _) r.cur (fun A hA => (r.aanch A hA).1) (by rw [hl]; rfl) ?_
+    refine set_tail r k s.b a.cur r.wf (Keep.refl _) r.cur (by rw [hl]; rfl) ?_
     unfold specStep; simp only [hal]
   | some i =>
     have hal : a.lastp = some (s.b.base + i) := by rw [← r.lastp, hl]; rfl
     have hv' : s.b.base + i + k ≤ a.cur + min P (a.src.length - a.cur) := hv _ hal
-    obtain ⟨l1, l2⟩ := r.lastp_le _ hal
+    have l1 := r.lastp_le _ hal
     have hik : i + k ≤ s.b.n := by have := r.cur; omega
-    have hanc := r.anchor_le i l2
-    refine set_tail r k { s.b with pos := i + k } (s.b.base + i + k) ?_ (setpos_keep s.b _) ?_ ?_ (by rw [hl]; rfl) ?_
-    · exact ⟨r.wf.hwin, hik, fun x hx => Nat.le_trans (hanc x hx) (Nat.le_add_right _ _), r.wf.hps, r.wf.heof, r.wf.hnofp⟩
+    refine set_tail r k { s.b with pos := i + k } (s.b.base + i + k) ?_ (setpos_keep s.b _) ?_ (by rw [hl]; rfl) ?_
+    · exact ⟨r.wf.hwin, hik, r.wf.hanch, r.wf.hps, r.wf.heof, r.wf.hnofp⟩
     · show s.b.base + (i + k) = _; omega
-    · intro A hA; have := l2 A hA; omega
     · unfold specStep; simp only [hal]
 
 end EaselModel.Buffer
